@@ -3,7 +3,7 @@
    gatherCBData then holds for every code-block of every component. *)
 From V Require Import Common.Base J2KGeo.GeoModel J2KGeo.GeoProofsBlocks T2.T2Header T2.T2Packets
   T2.T2ProofsHeader T2.T2ProofsHeader3 T2.T2ProofsPackets1 T2.T2ProofsPackets2 T2.T2ProofsPackets4 T2.T2ProofsPackets5 T2.T2ProofsGather
-  Pipe.PipeModel Pipe.PipeProofsFront Pipe.PipeProofsLists Pipe.PipeProofsStore Pipe.PipeProofsGeo
+  Pipe.PipeModel Pipe.PipeProofsPgeom Pipe.PipeProofsFront Pipe.PipeProofsLists Pipe.PipeProofsStore Pipe.PipeProofsGeo
   Pipe.PipeProofsDecGeo Pipe.PipeProofsBlock Pipe.PipeCellRel Pipe.PipeProofsEnc Pipe.PipeProofsCells
   Pipe.PipeGatherOnce.
 Require V.T2.T2ProofsProg V.J2KGeo.GeoLayers.
@@ -180,23 +180,13 @@ Lemma G2'_nodup : forall c r, NoDup (dec_pidx p c r).
 Proof. intros c r. destruct (pidx_shape c r) as [-> | ->]; repeat constructor. intros []. Qed.
 
 (* G3: every precinct index has a position key (one precinct per resolution) *)
-Lemma G3_keys : T2ProofsProg.pk_ok (L + 1) nc (dec_pidx p) (precinct_position_key (pipe_pgeom p) (L + 1)).
-Proof.
-  apply T2ProofsProg.prog_single; [apply pidx_shape|].
-  intros c r Hc Hr _. destruct (wh_range p Hsc) as (Hw & Hh & HL). fold L in HL.
-  unfold precinct_position_key, pipe_pgeom. cbn [pg_bounds pg_sampling pg_precinct].
-  destruct (Z.ltb_spec (L + 1 - 1) 0); [lia|]. replace (L + 1 - 1) with L by lia.
-  change (1 <=? 0) with false. cbv iota. unfold prec_sz. change (32768 <=? 0) with false. cbn [orb].
-  rewrite !Z.sub_0_r. destruct (Z.leb_spec (pp_w p) 0); [lia|]. destruct (Z.leb_spec (pp_h p) 0); [lia|]. cbn [orb].
-  unfold dec_res_dims.
-  destruct (win_iter_origin0 (level_no L r) (pp_w p) (pp_h p) ltac:(lia) ltac:(lia)) as [rw [rh [E [A B]]]]. rewrite E.
-  set (npx0 := Z.quot (ceil_div (0 + rw) 32768 * 32768 - floor_div 0 32768 * 32768) 32768).
-  set (npy0 := Z.quot (ceil_div (0 + rh) 32768 * 32768 - floor_div 0 32768 * 32768) 32768).
-  set (npx := if npx0 <? 1 then 1 else npx0). set (npy := if npy0 <? 1 then 1 else npy0).
-  assert (Hx : 1 <= npx) by (unfold npx; destruct (Z.ltb_spec npx0 1); lia).
-  assert (Hy : 1 <= npy) by (unfold npy; destruct (Z.ltb_spec npy0 1); lia).
-  change (0 <? 0) with false. destruct (Z.geb_spec 0 (npx * npy)); [nia|]. cbn [orb]. eexists. reflexivity.
-Qed.
+Lemma G3_keys : T2ProofsProg.pk_ok (L + 1) nc (dec_pidx p) (precinct_position_key (pipe_pgeom_dec p) (L + 1)).
+Proof. apply (pk_ok_dec p Hsc). apply pidx_shape. Qed.
+
+(* the encoder's tile-local bounds give the same packet sequence as the decoder's bounds *)
+Lemma enc_geom_G3_keys : forall nl', enc_packets (pp_order p) nl' (L + 1) nc (pipe_pgeom p) cells =
+  enc_packets (pp_order p) nl' (L + 1) nc (pipe_pgeom_dec p) cells.
+Proof. intros nl'. apply (enc_packets_geom p Hsc). intros c r. rewrite G2_pidx. apply pidx_shape. Qed.
 
 (* G4: every cell is related to the decoder's fresh state *)
 Lemma G4_cells : forall k, In k (T2ProofsProg.cell_keys (L + 1) nc (dec_pidx p)) ->
@@ -267,12 +257,12 @@ Theorem t2_delivers : forall eps cells',
   0 <= pp_order p <= 4 ->
   enc_packets (pp_order p) 1 (L + 1) nc (pipe_pgeom p) cells = Ok (eps, cells') -> small_packets eps ->
   exists dps,
-    dec_packets (packets_bytes eps) (pp_order p) 1 (L + 1) nc (pipe_pgeom p) (dec_pidx p) (dec_geo p) 0 false false = Ok dps /\
+    dec_packets (packets_bytes eps) (pp_order p) 1 (L + 1) nc (pipe_pgeom_dec p) (dec_pidx p) (dec_geo p) 0 false false = Ok dps /\
     forall c, 0 <= c < nc -> forall i r cb, In (i, (r, cb)) (NE p (cf c)) ->
       exists ci, aget key2_eqb (gather c (dec_order p) [] dps) (r, i) = Some ci /\ delivers (eblk p r cb) ci.
 Proof.
-  intros eps cells' Hord He Hsm.
-  destruct (packets_deliver_fields false 0 1 (L + 1) nc (pp_order p) (pipe_pgeom p) (dec_pidx p) (dec_geo p) false false cells
+  intros eps cells' Hord He Hsm. rewrite enc_geom_G3_keys in He.
+  destruct (packets_deliver_fields false 0 1 (L + 1) nc (pp_order p) (pipe_pgeom_dec p) (dec_pidx p) (dec_geo p) false false cells
               eq_refl G2_pidx G2'_nodup (fun _ => G3_keys) G4_cells Hord ltac:(lia) eps cells' He Hsm)
     as [dps [items [Ed [Eseq [[Hkeys Hvis] [Hitems [HM [Hok HF]]]]]]]].
   exists dps. split; [exact Ed|].
@@ -448,8 +438,9 @@ Theorem t2_encodes : 0 <= pp_order p <= 4 ->
   exists eps cells', enc_packets (pp_order p) 1 (L + 1) nc (pipe_pgeom p) cells = Ok (eps, cells') /\ small_packets eps.
 Proof.
   intros Hord.
-  destruct (packets_encode_total false 1 (L + 1) nc (pp_order p) (pipe_pgeom p) (dec_pidx p) (dec_geo p) cells
+  destruct (packets_encode_total false 1 (L + 1) nc (pp_order p) (pipe_pgeom_dec p) (dec_pidx p) (dec_geo p) cells
               G2_pidx G2'_nodup (fun _ => G3_keys) G4_cells Hord ltac:(lia)) as [eps [cells' [E Hok]]].
+  rewrite <- enc_geom_G3_keys in E.
   exists eps, cells'. split; [exact E | apply small_from_blocks; exact Hok].
 Qed.
 
